@@ -245,6 +245,10 @@ theorem C08_facts :
         "work.j=submit parameters must all be strings and %s is not", "str=field %s missing", "str=field %s must be a string",
         "int=field %s missing", "int=field %s value %s is not convertible to an int"] := by decide +kernel
 
+/-- **Tie (translator)**: the accept loop hands every accepted connection to a goroutine of its own at once; nothing that can
+wait (a TLS handshake, a read) runs in the loop itself, so no client can keep others from being accepted. -/
+theorem C08_accept_facts : Receptor.Facts.ctl_accept_loop = "accept;go:s.SetupConnection" := by decide +kernel
+
 end Receptor.Ctl
 
 /-! ## No wedge: the lock order of the code that serves control commands -/
